@@ -1,2 +1,540 @@
-def add_obligations(pack, tier):
-    pass
+"""Function part of C06 beyond the stepping loop: building the event schedule, dispatching it, the timer callbacks."""
+import ast
+import z3
+
+from pyvc.symex import Contract, Loop, spec, View, to_z3, as_real
+from pyvc.symval import (TArr, TBool, TInt, TObj, TOpaque, TReal, TSeq, TStr, TConst, NR, fresh, I, R, Bo, Func, Opaque, Module, Ref,
+                         ArrC, ListC, DictC, MapC, TMap, Unsupported, Obj, TColl, Coll, SeqC, Mark)
+from contracts.packutil import run_contracts
+from contracts import fn_tds
+
+FS = 'andes/system.py'
+FM = 'andes/core/model/model.py'
+FP = 'andes/core/param.py'
+FT = 'andes/models/timer.py'
+K = TStr.sort
+HAS_SORT = z3.ArraySort(R, z3.ArraySort(K, Bo))
+EMPTY = z3.K(K, z3.BoolVal(False))
+SD, MODELS = Mark('switch_dict'), Mark('models')
+
+
+def store_switch_times_tail(pid, empty):
+    """System.store_switch_times from the merge loop on (``for i, j in zip(out, names)``): `out` is the sorted array of
+    (t-eps, t, t+eps) not earlier than the current time, `names` the owning model of each entry.  Every (time, model) pair ends
+    up in switch_dict -- models sharing a time are merged, nothing already scheduled is dropped --; with an initially empty
+    schedule switch_times is strictly increasing, holds exactly the distinct times, and n_switches is its length."""
+    OUT_N = fresh('n_out', I)
+    N0 = fresh('nkeys_at_entry', I)
+
+    def keys(st):
+        return st.ghost['keys'], st.ghost['nkeys']
+
+    def dom(st, t):
+        # ghost index: pos[t] is the insertion position of key t (meaningful only when it points back at t)
+        arr, n = keys(st)
+        pos = st.ghost['pos']
+        return z3.And(pos[t] >= 0, pos[t] < n, arr[pos[t]] == t)
+
+    def contains(ex, st, args, kw, node):
+        cont, item = args
+        if cont == SD:
+            return dom(st, as_real(item).val)
+        return NotImplemented
+
+    def pair_of(st, d):
+        items = list(st.content(d).items.items())
+        if len(items) != 1:
+            raise Unsupported('schedule entry with %d models' % len(items))
+        (j, m), = items
+        if not (isinstance(j, Opaque) and m == Mark('model', j)):
+            raise Unsupported('schedule entry does not map a model name to models[name]')
+        return j.term
+
+    def set_key(st, t, fn):
+        """switch_dict[t] = <set>: fn(old_set) -> new set"""
+        has = st.ghost['has']
+        arr, n = keys(st)
+        present = dom(st, t)
+        st.ghost['has'] = z3.Store(has, t, fn(has[t]))
+        st.ghost['keys'] = z3.If(present, arr, z3.Store(arr, n, t))
+        st.ghost['nkeys'] = z3.If(present, n, n + 1)
+        st.ghost['pos'] = z3.If(present, st.ghost['pos'], z3.Store(st.ghost['pos'], t, n))
+        if 'i' in st.env and '$i1' in st.env:
+            st.ghost['src'] = z3.If(present, st.ghost['src'], z3.Store(st.ghost['src'], n, st.env['$i1']))
+
+    def setitem(ex, st, args, kw, node):
+        base, sl, value = args
+        if base != SD:
+            raise Unsupported('store into %r' % (base,))
+        t = as_real(ex.ev(sl, st) if isinstance(sl, ast.AST) else sl).val
+        j = pair_of(st, value)
+        nn = fresh('n', K)
+        set_key(st, t, lambda old: z3.Store(EMPTY, j, True))
+        return None
+
+    def getitem(ex, st, args, kw, node):
+        base, sl = args
+        if base == SD:
+            return Mark('entry', as_real(ex.ev(sl, st)).val)
+        if base == MODELS:
+            return Mark('model', ex.ev(sl, st))
+        return NotImplemented
+
+    def update(ex, st, args, kw, node):
+        base, d = args
+        if not (isinstance(base, Mark) and base.kind == 'entry'):
+            return NotImplemented
+        j = pair_of(st, d)
+        nn = fresh('n', K)
+        set_key(st, base.data[0], lambda old: z3.Store(old, j, True))
+        return None
+
+    def setdefault(ex, st, args, kw, node):
+        base, key, d = args
+        if base != SD:
+            return NotImplemented
+        t = as_real(key).val
+        j = pair_of(st, d)
+        nn = fresh('n', K)
+        present = dom(st, t)
+        set_key(st, t, lambda old: z3.If(present, old, z3.Store(EMPTY, j, True)))
+        return Mark('entry', t)
+
+    def np_array_keys(ex, st, args, kw, node):
+        if args and args[0] == Mark('keys'):
+            arr, n = keys(st)
+            return st.new_ref(ArrC(arr, n, None), 'switch_times')
+        return NotImplemented
+
+    def out_names(v):
+        return v.st.content(v.st.env['out']), v.st.content(v.st.env['names'])
+
+    def inv_pairs(v):
+        out, names = out_names(v)
+        i = v.local('$i1')
+        has = v.st.ghost['has']
+        k = fresh('k', I)
+        return z3.ForAll([k], z3.Implies(z3.And(k >= 0, k < i), has[out.vals[k]][names.arr[k]]))
+
+    def inv_keys(v):
+        out, names = out_names(v)
+        i = v.local('$i1')
+        arr, n = keys(v.st)
+        has = v.st.ghost['has']
+        a, b, k = fresh('a', I), fresh('b', I), fresh('k', I)
+        tt, nn = fresh('t', R), fresh('n', K)
+        pos, src = v.st.ghost['pos'], v.st.ghost['src']
+        cl = [n >= 0,
+              z3.ForAll([a], z3.Implies(z3.And(a >= 0, a < n), pos[arr[a]] == a)),          # keys distinct
+              # models are filed only under times that are keys
+              z3.ForAll([tt, nn], z3.Implies(has[tt][nn], dom(v.st, tt)))]
+        if True:
+            g = (lambda x: x) if empty else (lambda x: z3.Implies(N0 == 0, x))      # schedule empty at entry
+            cl += [g(y) for y in [z3.ForAll([a, b], z3.Implies(z3.And(a >= 0, a < b, b < n), arr[a] < arr[b])),
+                   z3.Implies(i == 0, n == 0),
+                   z3.ForAll([a], z3.Implies(z3.And(a >= 0, a < n, i > 0), arr[a] <= out.vals[i - 1])),
+                   # exactly the distinct times seen so far (src[a]: an input position holding key a)
+                   z3.ForAll([a], z3.Implies(z3.And(a >= 0, a < n), z3.And(src[a] >= 0, src[a] < i, out.vals[src[a]] == arr[a]))),
+                   z3.ForAll([k], z3.Implies(z3.And(k >= 0, k < i), dom(v.st, out.vals[k])))]]
+        return z3.And(*cl)
+
+    def snap(v):
+        v.st.ghost['has0'] = v.st.ghost['has']
+        v.st.ghost['keys0'] = (v.st.ghost['keys'], v.st.ghost['nkeys'])
+        v.st.ghost['in_iter'] = True
+        return True
+
+    def inv_keep(v):
+        if not v.st.ghost.get('in_iter'):
+            return True
+        has0, has = v.st.ghost['has0'], v.st.ghost['has']
+        arr0, n0 = v.st.ghost['keys0']
+        arr, n = keys(v.st)
+        tt, nn, a = fresh('t', R), fresh('n', K), fresh('a', I)
+        return z3.And(z3.ForAll([tt, nn], z3.Implies(has0[tt][nn], has[tt][nn])), n >= n0,
+                      z3.ForAll([a], z3.Implies(z3.And(a >= 0, a < n0), arr[a] == arr0[a])))
+
+    def post(old, new, res):
+        out, names = new.st.content(old.st.env['out']), new.st.content(old.st.env['names'])
+        has = new.st.ghost['has']
+        arr, n = keys(new.st)
+        k, a, b = fresh('k', I), fresh('a', I), fresh('b', I)
+        sw = new.arr('self.switch_times')
+        cl = [z3.ForAll([k], z3.Implies(z3.And(k >= 0, k < out.n), has[out.vals[k]][names.arr[k]])),
+              sw.n == n, new.z('self.n_switches') == n,
+              z3.ForAll([a], z3.Implies(z3.And(a >= 0, a < n), sw.vals[a] == arr[a])),
+              z3.BoolVal(isinstance(res, Ref) and res.loc == new.get('self.switch_times').loc)]
+        if not empty:
+            cl = cl + []
+        if empty:
+            pos, src = new.st.ghost['pos'], new.st.ghost['src']
+            cl += [z3.ForAll([a, b], z3.Implies(z3.And(a >= 0, a < b, b < n), sw.vals[a] < sw.vals[b])),
+                   # every input time is in switch_times (at pos[t]); every entry of switch_times is an input time (out[src[a]])
+                   z3.ForAll([k], z3.Implies(z3.And(k >= 0, k < out.n), z3.And(pos[out.vals[k]] >= 0, pos[out.vals[k]] < n,
+                                                                               sw.vals[pos[out.vals[k]]] == out.vals[k]))),
+                   z3.ForAll([a], z3.Implies(z3.And(a >= 0, a < n), z3.And(src[a] >= 0, src[a] < out.n, out.vals[src[a]] == sw.vals[a])))]
+        return z3.And(*cl)
+
+    def post_sorted(old, new, res):
+        sw = new.arr('self.switch_times')
+        a, b = fresh('a', I), fresh('b', I)
+        return z3.ForAll([a, b], z3.Implies(z3.And(a >= 0, a < b, b < sw.n), sw.vals[a] < sw.vals[b]))
+
+    def sorted_in(v):
+        out, names = out_names(v)
+        a, b = fresh('a', I), fresh('b', I)
+        return z3.And(out.n == names.n, z3.ForAll([a, b], z3.Implies(z3.And(a >= 0, a < b, b < out.n), out.vals[a] <= out.vals[b])))
+    c = Contract(FS, 'System.store_switch_times', pid=pid, params={'self': TObj(), 'models': TOpaque('Models'), 'eps': TReal()},
+                 schema={'self.switch_times': TArr(), 'self.n_switches': TInt()},
+                 ghost_init={'has': lambda v: (z3.K(R, z3.K(K, z3.BoolVal(False))) if empty else fresh('switch_dict', HAS_SORT)),
+                             'keys': lambda v: fresh('keys', z3.ArraySort(I, R)), 'pos': lambda v: fresh('pos', z3.ArraySort(R, I)),
+                             'src': lambda v: fresh('src', z3.ArraySort(I, I)),
+                             'nkeys': lambda v: (z3.IntVal(0) if empty else N0)},
+                 requires=[('out-sorted-ascending(np.argsort)-and-paired-with-names', sorted_in)] +
+                 ([] if empty else [('existing-schedule-keys-distinct', lambda v: inv_keys(_V0(v)))]),
+                 calls={'__contains__': contains, '__setitem__': setitem, '__getitem__': getitem, '<value>.update': update,
+                        '<value>.setdefault': setdefault, '<value>.keys': lambda ex, st, a, k, n: Mark('keys') if a[0] == SD else NotImplemented,
+                        'list': lambda ex, st, a, k, n: a[0], 'np.array': np_array_keys},
+                 loops={'*': None},
+                 ensures=[('every-(time,model)-scheduled;switch_times=keys%s;n_switches=len' % (',strictly-increasing,exactly-the-distinct-times' if empty else ''), post)],
+                 modifies=['self.switch_times', 'self.n_switches'])
+    if not empty:
+        c.ensures.append(('switch_times-strictly-increasing', post_sorted))
+    first = 1          # ordinal of the merge loop in the whole function (loops before it are sliced away)
+    c.loops = {first: Loop(inv=[('pairs-seen-so-far-are-scheduled', inv_pairs), ('keys-distinct%s' % ('-increasing-exact' if empty else ''), inv_keys),
+                                ('nothing-scheduled-is-dropped', inv_keep)], assume=[('snap', snap)],
+                           frame=['$i', '$j', 'ghost:has', 'ghost:keys', 'ghost:nkeys', 'ghost:pos', 'ghost:src', 'ghost:has0', 'ghost:keys0', 'ghost:in_iter'])}
+    c.body_from = 'for i, j in zip(out, names)'
+    c.locals = {'out': TArr(), 'names': TSeq(elem=K)}
+    c.tag = 'empty-schedule' if empty else 'any-schedule'
+    c.check_bounds = False
+
+    def pre_state(st):
+        st.heap['self.switch_dict'] = SD
+        st.heap['self.models'] = MODELS
+        st.ghost.pop('in_iter', None)
+    c.pre_state = pre_state
+    return c
+
+
+def replay_store_switch_times(obligation, model, meta):
+    """native run of the real System.store_switch_times on stub models (coincident times across models, repeated times,
+    times before the current time); returns the first input whose result breaks the contract"""
+    import itertools
+    from collections import OrderedDict
+    from types import SimpleNamespace
+    import numpy as np
+    from andes.system import System
+    eps = 1e-4
+    scenarios = []
+    for ta, tb in itertools.product([[], [1.0], [1.0, 2.0], [2.0, 2.0], [0.5]], [[1.0], [2.0, 1.0], [3.0]]):
+        for t0 in (0.0, 1.0):
+            scenarios.append(({'A': ta, 'B': tb}, t0))
+    for times, t0 in scenarios:
+        mdls = OrderedDict((k, SimpleNamespace(class_name=k, get_times=(lambda v=v: [np.array(v)] if v else []))) for k, v in times.items())
+        stub = SimpleNamespace(options={}, dae=SimpleNamespace(t=t0), switch_dict=OrderedDict(), models=mdls,
+                               switch_times=np.array([]), n_switches=0)
+        try:
+            ret = System.store_switch_times(stub, mdls, eps=eps)
+        except Exception as e:      # noqa
+            return {'confirmed': True, 'inputs': {'times': times, 't': t0}, 'observed': repr(e),
+                    'native_cmd': 'System.store_switch_times(stub, models) with stub models exposing get_times()/class_name'}
+        want = {}
+        for k, v in times.items():
+            for t in v:
+                for x in (t, t - eps, t + eps):
+                    if x >= t0:
+                        want.setdefault(x, set()).add(k)
+        st = list(stub.switch_times)
+        bad = None
+        if sorted(want) != st:
+            bad = 'switch_times %s, expected %s' % (st, sorted(want))
+        elif stub.n_switches != len(st):
+            bad = 'n_switches %s' % stub.n_switches
+        else:
+            for t, ms in want.items():
+                got = set(stub.switch_dict.get(t, {}).keys())
+                if got != ms:
+                    bad = 'switch_dict[%r] holds %s, expected %s' % (t, sorted(got), sorted(ms))
+                    break
+        if bad:
+            return {'confirmed': True, 'inputs': {'times': times, 't': t0}, 'observed': bad,
+                    'native_cmd': 'System.store_switch_times(stub, models) with stub models exposing get_times()/class_name'}
+    return {'confirmed': False, 'tried': len(scenarios)}
+
+
+def is_time(pid):
+    """TimerParam.is_time: element k is True exactly when the simulation time equals the stored time of device k (exact)."""
+    def post(old, new, res):
+        c = new.st.content(res)
+        v = old.arr('self.v')
+        t = old.st.env['dae_t'].val
+        k = fresh('k', I)
+        return z3.And(c.n == v.n, z3.ForAll([k], z3.Implies(z3.And(k >= 0, k < v.n), (c.vals[k] != 0) == (v.vals[k] == t))))
+    return Contract(FP, 'TimerParam.is_time', pid=pid, params={'self': TObj(), 'dae_t': TReal()}, schema={'self.v': TArr()},
+                    ensures=[('is_time[k]<=>(t==v[k])', post)], modifies=[])
+
+
+def model_switch_action(pid):
+    """Model.switch_action: every timer with a callback has it called once with is_time(dae_t) of that same timer."""
+    E = 'self.timer_params.$e'
+
+    def is_time_h(ex, st, args, kw, node):
+        ok = to_z3(args[0]) is to_z3(st.env['dae_t'])
+        st.ghost['flag'] = Mark('is_time', ok)
+        return st.ghost['flag']
+
+    def callback(ex, st, args, kw, node):
+        st.ghost['called'] = st.ghost['called'] + [bool(len(args) == 1 and args[0] is st.ghost.get('flag') and args[0].data[0])]
+        return None
+
+    def reset(v):
+        v.st.ghost['called'] = []
+        v.st.ghost['in_iter'] = True
+        return True
+
+    def once(v):
+        if not v.st.ghost.get('in_iter'):
+            return True
+        cb = v.get(E + '.callback')
+        has = z3.Not(cb.isnone) if hasattr(cb, 'isnone') else z3.BoolVal(cb is not None)
+        called = v.st.ghost['called']
+        return z3.If(has, z3.BoolVal(called == [True]), z3.BoolVal(called == []))
+    from pyvc.symval import TOptional
+    c = Contract(FM, 'Model.switch_action', pid=pid, params={'self': TObj(), 'dae_t': TReal()},
+                 schema={'self.timer_params': TColl(), E + '.callback': TOptional(TOpaque('Callback'))},
+                 ghost_init={'called': []},
+                 calls={E + '.is_time': is_time_h, E + '.callback': callback},
+                 loops={0: Loop(inv=[('callback(is_time(dae_t))-exactly-once-per-timer-with-a-callback', once)], assume=[('reset', reset)],
+                                frame=['$timer', E + '.*', 'ghost:called', 'ghost:flag', 'ghost:in_iter'])},
+                 ensures=[], modifies=[])
+    c.merge = False
+
+    def pre_state(st):
+        st.ghost.pop('in_iter', None)
+    c.pre_state = pre_state
+    return c
+
+
+def system_switch_action(pid):
+    """System.switch_action: exactly the models handed in get switch_action(dae.t), each once; then time-series data."""
+    E = 'models.$e'
+
+    def sa(ex, st, args, kw, node):
+        st.ghost['called'] = st.ghost['called'] + [bool(len(args) == 1 and to_z3(args[0]).eq(to_z3(st.load('self.dae.t'))))]
+        return None
+
+    def reset(v):
+        v.st.ghost['called'] = []
+        v.st.ghost['in_iter'] = True
+        return True
+
+    def once(v):
+        if not v.st.ghost.get('in_iter'):
+            return True
+        return z3.BoolVal(v.st.ghost['called'] == [True])
+
+    def ts(ex, st, args, kw, node):
+        st.ghost['ts'] = st.ghost['ts'] + [bool(len(args) == 1 and to_z3(args[0]).eq(to_z3(st.load('self.dae.t'))))]
+        return None
+    c = Contract(FS, 'System.switch_action', pid=pid, params={'self': TObj(), 'models': TColl()},
+                 schema={'models': TColl(), 'self.dae.t': TReal()}, ghost_init={'called': [], 'ts': []},
+                 calls={E + '.switch_action': sa, 'self.TimeSeries.apply_exact': ts},
+                 loops={0: Loop(inv=[('switch_action(dae.t)-once-per-given-model', once)], assume=[('reset', reset)],
+                                frame=['$instance', E + '.*', 'ghost:called', 'ghost:in_iter'])},
+                 ensures=[('time-series-applied-at-dae.t', lambda o, n, r: z3.BoolVal(n.st.ghost['ts'] == [True]))], modifies=[])
+    c.merge = False
+
+    def pre_state(st):
+        st.ghost.pop('in_iter', None)
+    c.pre_state = pre_state
+    return c
+
+
+def _dev_model(ex, st, args, kw, node):
+    """system.__dict__[<model name>] -> token of that model"""
+    return Mark('devmodel', args[1])
+
+
+def toggle_u_switch(pid):
+    """Toggle._u_switch: for every toggle k whose time has come and which is enabled, the status of exactly the addressed device
+    (model[k], dev[k]) is flipped (1 - current), once; other toggles do nothing; the return value says whether anything
+    happened."""
+    N = fresh('n', I)
+
+    def get(ex, st, args, kw, node):
+        base = args[0]
+        i = to_z3(st.env['i'])
+        ok = (isinstance(base, Mark) and base.kind == 'devmodel' and kw.get('src') == 'u' and kw.get('attr') == 'v'
+              and _is_elem(st, base.data[0], 'self.model.v', i) and _is_elem(st, kw.get('idx'), 'self.dev.v', i))
+        u0 = fresh('u0', R)
+        st.ghost['get'] = (bool(ok), u0)
+        return NR(u0)
+
+    def set_(ex, st, args, kw, node):
+        base = args[0]
+        i = to_z3(st.env['i'])
+        g = st.ghost.get('get') or (False, z3.RealVal(0))
+        ok = (isinstance(base, Mark) and base.kind == 'devmodel' and kw.get('src') == 'u' and kw.get('attr') == 'v' and g[0]
+              and _is_elem(st, base.data[0], 'self.model.v', i) and _is_elem(st, kw.get('idx'), 'self.dev.v', i))
+        val = as_real(kw.get('value')).val
+        ex.oblige(st, 'pre@call:set(u,v,idx=dev[k],value=1-current)-on-model[k]', z3.And(z3.BoolVal(bool(ok)), val == 1 - g[1]), {})
+        st.ghost['sets'] = st.ghost['sets'] + 1
+        return None
+
+    def reset(v):
+        v.st.ghost['sets'] = 0
+        v.st.ghost['in_iter'] = True
+        v.st.ghost['action0'] = v.st.env['action']
+        return True
+
+    def fired(v):
+        if not v.st.ghost.get('in_iter'):
+            return True
+        i = v.local('$i0') - 1
+        due = z3.And(v.st.content(v.st.env['is_time']).vals[i] != 0, v.arr('self.u.v').vals[i] != 0)
+        sets = v.st.ghost['sets']
+        sets = sets if z3.is_expr(sets) else z3.IntVal(sets)
+        a0, a1 = _b(v.st.ghost['action0']), _b(v.st.env['action'])
+        return z3.And(sets == z3.If(due, 1, 0), a1 == z3.Or(a0, due))
+    c = Contract(FT, 'Toggle._u_switch', pid=pid, params={'self': TObj(), 'is_time': TArr(kind='bool', n=N)},
+                 schema={'self.n': TInt(), 'self.u.v': TArr(n=N), 'self.model.v': TSeq(elem=K), 'self.dev.v': TSeq(elem=K),
+                         'self.idx.v': TSeq(elem=K), 'self.t.v': TArr(n=N), 'self.system.dae.t': TReal()},
+                 requires=[('n', lambda v: z3.And(v.z('self.n') == N, N >= 0))],
+                 ghost_init={'sets': 0},
+                 calls={'__objdict__': _dev_model, '<value>.get': get, '<value>.set': set_, 'tqdm.write': lambda ex, st, a, k, n: None},
+                 globals_={'tqdm': Module('tqdm')},
+                 loops={0: Loop(inv=[('toggle-k-flips-its-device-iff-due-and-enabled,exactly-once', fired)], assume=[('reset', reset)],
+                                frame=['$i', '$instance', '$u0', '$action', 'ghost:sets', 'ghost:get', 'ghost:in_iter', 'ghost:action0'])},
+                 ensures=[], modifies=[])
+    c.check_bounds = False
+
+    def pre_state(st):
+        st.ghost.pop('in_iter', None)
+    c.pre_state = pre_state
+    return c
+
+
+def _b(x):
+    return z3.BoolVal(x) if isinstance(x, bool) else x
+
+
+def _is_elem(st, val, path, i):
+    """val is element #i of the sequence stored at `path`"""
+    if not isinstance(val, Opaque):
+        return False
+    c = st.content(st.load(path))
+    return bool(z3.simplify(c.arr[i]).eq(z3.simplify(val.term)))
+
+
+def fault_apply(pid):
+    """Fault.apply_fault: the fault flag uf[k] becomes 1 for exactly the faults that are due (tf reached) and enabled; every
+    other flag keeps its value."""
+    N = fresh('n', I)
+
+    def snap(v):
+        v.st.ghost['uf0'] = v.arr('self.uf.v')
+        v.st.ghost['in_iter'] = True
+        return True
+
+    def fired(v):
+        if not v.st.ghost.get('in_iter'):
+            return True
+        i = v.local('$i0') - 1
+        due = z3.And(v.st.content(v.st.env['is_time']).vals[i] != 0, v.arr('self.u.v').vals[i] != 0)
+        u0, u1 = v.st.ghost['uf0'], v.arr('self.uf.v')
+        k = fresh('k', I)
+        return z3.ForAll([k], z3.Implies(z3.And(k >= 0, k < N), u1.vals[k] == z3.If(z3.And(k == i, due), 1, u0.vals[k])))
+    c = Contract(FT, 'Fault.apply_fault', pid=pid, params={'self': TObj(), 'is_time': TArr(kind='bool', n=N)},
+                 schema={'self.n': TInt(), 'self.u.v': TArr(n=N), 'self.uf.v': TArr(n=N), 'self.bus.v': TSeq(elem=K), 'self.idx.v': TSeq(elem=K),
+                         'self.tf.v': TArr(n=N), 'self.system.dae.y': TArr(), 'self.system.Bus.n': TInt(), 'self._vstore': TArr()},
+                 requires=[('n', lambda v: z3.And(v.z('self.n') == N, N >= 0, v.z('self.system.Bus.n') >= 0,
+                                                  v.z('self.system.Bus.n') <= v.arr('self.system.dae.y').n))],
+                 calls={'tqdm.write': lambda ex, st, a, k, n: None, 'logger.debug': lambda ex, st, a, k, n: None,
+                        'str': lambda ex, st, a, k, n: 's'},
+                 globals_={'tqdm': Module('tqdm'), 'str': Func('str')},
+                 loops={0: Loop(inv=[('uf[k]=1-iff-due-and-enabled;others-unchanged', fired)], assume=[('snap', snap)],
+                                frame=['$i', '$action', 'self._vstore', 'loc:self.uf.v', 'ghost:uf0', 'ghost:in_iter'])},
+                 ensures=[], modifies=['self._vstore', 'self.uf.v'])
+    c.check_bounds = False
+
+    def pre_state(st):
+        st.ghost.pop('in_iter', None)
+    c.pre_state = pre_state
+    return c
+
+
+def fault_clear(pid):
+    """Fault.clear_fault: uf[k] becomes 0 for exactly the faults whose clearing time has come and which are enabled."""
+    N = fresh('n', I)
+
+    def snap(v):
+        v.st.ghost['uf0'] = v.arr('self.uf.v')
+        v.st.ghost['in_iter'] = True
+        return True
+
+    def fired(v):
+        if not v.st.ghost.get('in_iter'):
+            return True
+        i = v.local('$i0') - 1
+        due = z3.And(v.st.content(v.st.env['is_time']).vals[i] != 0, v.arr('self.u.v').vals[i] == 1)
+        u0, u1 = v.st.ghost['uf0'], v.arr('self.uf.v')
+        k = fresh('k', I)
+        return z3.ForAll([k], z3.Implies(z3.And(k >= 0, k < N), u1.vals[k] == z3.If(z3.And(k == i, due), 0, u0.vals[k])))
+    c = Contract(FT, 'Fault.clear_fault', pid=pid, params={'self': TObj(), 'is_time': TArr(kind='bool', n=N)},
+                 schema={'self.n': TInt(), 'self.u.v': TArr(n=N), 'self.uf.v': TArr(n=N), 'self.bus.v': TSeq(elem=K), 'self.idx.v': TSeq(elem=K),
+                         'self.tc.v': TArr(n=N), 'self.config.restore': TConst(False)},
+                 requires=[('n', lambda v: z3.And(v.z('self.n') == N, N >= 0))],
+                 calls={'tqdm.write': lambda ex, st, a, k, n: None, 'logger.debug': lambda ex, st, a, k, n: None},
+                 globals_={'tqdm': Module('tqdm')},
+                 loops={0: Loop(inv=[('uf[k]=0-iff-due-and-enabled;others-unchanged', fired)], assume=[('snap', snap)],
+                                frame=['$i', '$action', 'loc:self.uf.v', 'ghost:uf0', 'ghost:in_iter'])},
+                 ensures=[], modifies=['self.uf.v'])
+    c.check_bounds = False
+
+    def pre_state(st):
+        st.ghost.pop('in_iter', None)
+    c.pre_state = pre_state
+    return c
+
+
+WIT_F28 = {'F28': lambda old, new: old.st.ghost['nkeys'] > 0}       # schedule not empty at entry
+
+
+def replay_f28():
+    """F28 on the real code: re-scheduling into a non-empty switch_dict leaves switch_times unsorted"""
+    from collections import OrderedDict
+    from types import SimpleNamespace
+    import numpy as np
+    from andes.system import System
+    t = [2.0]
+    m = OrderedDict(A=SimpleNamespace(class_name='A', get_times=lambda: [np.array(t)]))
+    stub = SimpleNamespace(options={}, dae=SimpleNamespace(t=0.0), switch_dict=OrderedDict(), models=m, switch_times=np.array([]), n_switches=0)
+    System.store_switch_times(stub, m)
+    t[0], stub.dae.t = 1.5, 0.5
+    System.store_switch_times(stub, m)
+    st = list(stub.switch_times)
+    return {'confirmed': st != sorted(st), 'observed': st}
+
+
+class _V0:
+    """view adaptor: invariant clauses evaluated before the loop (index 0)"""
+    def __init__(self, v):
+        self.st = v.st
+        self._v = v
+
+    def local(self, name):
+        return z3.IntVal(0)
+
+    def __getattr__(self, a):
+        return getattr(self._v, a)
+
+
+def add_obligations(pack, tier, pid='C06'):
+    pack.assume('System.store_switch_times is verified from its merge loop on (mechanical slice: the statements before '
+                '`for i, j in zip(out, names)` are dropped and their results `out`, `names` are arbitrary inputs constrained only by '
+                'what np.argsort / the >= dae.t selection guarantee: ascending, paired)')
+    items = [(store_switch_times_tail(pid, True), None, replay_store_switch_times), (store_switch_times_tail(pid, False), WIT_F28, replay_store_switch_times),
+             (fn_tds.tds_init(pid),), (is_time(pid),), (model_switch_action(pid),), (system_switch_action(pid),),
+             (toggle_u_switch(pid),), (fault_apply(pid),), (fault_clear(pid),)]
+    run_contracts(pack, items)
